@@ -310,7 +310,10 @@ PROPS = {
              'distinct = distinct case lines',
         trusted=['the regular expression quoted in ansi.go (with leftmost-first semantics) as the definition of an escape sequence',
                  'utf8.DecodeRune / DecodeLastRune (modelled Go-faithfully)'],
-        level_text='Lean 4 theorems: text without control characters is returned untouched for every carried-over state and the '
+        level_text='Lean 4 theorems, for arbitrary bytes (invalid UTF-8, truncated or nested sequences): every sequence the scanner '
+                   'reports is a non-empty piece of the line that starts at or after the scan position and ends inside the line (so '
+                   'the stripping loop terminates and never takes text back); the stripped text is a sublist of the line — nothing is '
+                   'added, altered or reordered; text without control characters is returned untouched for every carried-over state and the '
                    'scanner finds no sequence in it; the abstract colouring gives one cell per character; colour arithmetic stays '
                    'in int32. The scanner, extractColor and interpretCode are compared with the model on both streams; an '
                    'independent matcher for the documented regular expression decides what must be stripped, spans are checked '
